@@ -4,6 +4,7 @@ import PyYetiVerif.Model.Op4Variants
 import PyYetiVerif.Model.PyFloat
 import PyYetiVerif.Model.Op4AsciiBits
 import PyYetiVerif.Model.Op4Input
+import PyYetiVerif.Model.Op4Fixed
 /-! Line protocol for C04 (all numbers decimal, byte strings hex).
 
   cs i0 i1 …                      → `s:l s:l …`                       (`_sparse_col_stats`)
@@ -13,6 +14,11 @@ import PyYetiVerif.Model.Op4Input
   dec <d|s|a> <hex>               → decoded matrices (see `showDec`)    (`load`)
   dir <hex>                       → `name,rows,cols,form,mtype|…`       (`dir`)
   fmt <digits> <bits>             → hex of `numform % x`
+  REPAIR CANDIDATES (Model/Op4Fixed.lean; used by corpus/c04_F2_candidate_check.py, corpus/c04_F3_candidate_check.py only):
+  spl <maxlen> s:l s:l …          → `s:l s:l …`                       (`_split_strings`, F2 candidate)
+  encfx <l|b> <n> mat…            → hex bytes | `struct_error`          (binary `write`, F2 candidate)
+  fmtfx <digits> <bits>           → hex of `numform(x)`                 (F3 candidate)
+  ascfx <digits> <n> mat…         → hex of the text file                (ASCII `write`, F3 candidate)
   adec <d|s|a|*> <hex>            → the ASCII reader model (Model/Op4Ascii.lean) on the text: decoded
                                     matrices as for `dec` (fields → exact decimal → nearest double by the
                                     correctly rounded `PyFloat.toBits`) | `decode-error` | `not-ascii`;
@@ -489,6 +495,30 @@ def answer (line : String) : String :=
   | ["fmt", d, b] => match d.toNat?, b.toNat? with
       | some d, some b => toHex ((fmtE d b).map Char.toNat)
       | _, _ => "bad-op"
+  | ["fmtfx", d, b] => match d.toNat?, b.toNat? with
+      | some d, some b => toHex ((fmtEFx d b).map Char.toNat)
+      | _, _ => "bad-op"
+  | "spl" :: m :: ws => match m.toNat?, ws.mapM (fun w => match w.splitOn ":" with
+        | [a, b] => match a.toNat?, b.toNat? with
+          | some a, some b => some (a, b)
+          | _, _ => none
+        | _ => none) with
+      | some m, some ind => " ".intercalate ((splitStrings m ind).map fun (s, l) => s!"{s}:{l}")
+      | _, _ => "bad-op"
+  | "encfx" :: e :: ws => run (do
+        let e ← match endianOf e with
+          | some e => pure e
+          | none => failure
+        let n ← nat
+        let ms ← repeatP matP n
+        match encFileBytesFx e ms with
+        | some bs => pure (toHex bs)
+        | none => pure "struct_error") ws
+  | "ascfx" :: ws => run (do
+        let d ← nat
+        let n ← nat
+        let ms ← repeatP matP n
+        pure (toHex ((encFileAsciiFx d ms).map Char.toNat))) ws
   | _ => "bad-op"
 
 partial def loop (h : IO.FS.Stream) (out : IO.FS.Stream) : IO Unit := do
